@@ -1,5 +1,6 @@
 // Replay harness for tulz::Array (C14): executes histories from the TLC graph of ArrayP (X) or
 // from the random generator (Y) and reports the public observations and the lifetime registry.
+#include <any>
 #include <cmath>
 #include <cstdint>
 #include <cstdlib>
@@ -31,6 +32,17 @@ struct Val<double> {
     static long get(const double &x) {
         if (x == 0) return std::signbit(x) ? 2 : 9;
         return (x - 0.5 == (double) (long) (x - 0.5)) ? (long) (x - 0.5) : -9;
+    }
+};
+// an element type that can be constructed from (nearly) anything, in particular from an Array of itself: a deep copy must never
+// turn into "an array holding one element made from the other array"
+template <>
+struct Val<std::any> {
+    static std::any make(int v) { return std::any(v); }
+    static long get(const std::any &x) {
+        if (!x.has_value()) return 0;
+        if (auto *p = std::any_cast<int>(&x)) return *p;
+        return -55;   // holds something else (e.g. a whole Array)
     }
 };
 template <>
@@ -216,6 +228,8 @@ void run_exec(const Execution &ex) {
         run_typed<std::string>(ex);
     else if (ty == "pod")
         run_typed<Pod>(ex);
+    else if (ty == "any")
+        run_typed<std::any>(ex);
     else
         run_typed<trk::Tracked>(ex);
 }
